@@ -119,14 +119,17 @@ def row_verdict(typ, a, b, p1, p2):
     raise ValueError(typ)
 
 
-def make_pair(g, typ, n):
+NONFINITE = ["nan-a", "nan-b", "nan-both", "inf-a", "inf-b", "inf-both-same", "inf-both-opposite"]
+
+
+def make_pair(g, typ, n, cls=None, mode=None, nfkind=None):
     """-> dict(a, b, p1, p2, cls, expected 'success'|'failure'|'amb', cause)"""
-    cls = g.choice(CLASSES)
+    cls = cls or g.choice(CLASSES)
     a = rand_column(g, n, cls)
     scale = max(abs(x) for x in a)
     p1 = rand_prec(g, scale if typ == "Absolute" else 1.0)
     p2 = rand_prec(g, scale) if typ in TWO_PREC else 0.0
-    mode = g.choice(["inside", "inside", "outside", "equal", "nonfinite", "nonfinite"])
+    mode = mode or g.choice(["inside", "inside", "outside", "equal", "nonfinite", "nonfinite"])
     b = list(a)
     if mode in ("inside", "outside", "nonfinite"):
         for k in range(n):
@@ -145,7 +148,7 @@ def make_pair(g, typ, n):
             b[k] = a[k] + d * g.choice([-1, 1])
     cause = None
     if mode == "nonfinite":
-        kind = g.choice(["nan-a", "nan-b", "nan-both", "inf-a", "inf-b", "inf-both-same", "inf-both-opposite"])
+        kind = nfkind or g.choice(NONFINITE)
         for k in sorted(g.sample(range(n), g.randrange(1, 3))):
             s = g.choice([-1, 1])
             if kind == "nan-a":
@@ -192,10 +195,19 @@ def gen_batch(seed, bi, ncmp):
     """one directory, one .check, ncmp comparisons; -> (files {name: writer args}, check text, list of expectations)"""
     g = vfcore.rng(seed, "c51", "batch", bi)
     files, lines, exps = {}, [], []
+    core = []
+    if bi == 0:
+        # batch 0 is structured: every (type, non finite kind) and every (type, self-compared column class) is present whatever the seed
+        for typ in TYPES:
+            core += [(typ, "pair", None, nf) for nf in NONFINITE] + [(typ, "self", cls, None) for cls in CLASSES] + [(typ, "sticky", None, None)]
+        ncmp = len(core)
     for k in range(ncmp):
         typ = TYPES[(bi + k) % 4]
         n = g.randrange(3, 13)
         kind = g.choice(["pair", "pair", "pair", "self", "interp", "sticky"])
+        fcls = fnf = None
+        if core:
+            typ, kind, fcls, fnf = core[k]
         t = sorted({round(g.uniform(0, 100), 6) for _ in range(n)})
         while len(t) < n:
             t.append(t[-1] + 1.0)
@@ -204,13 +216,13 @@ def gen_batch(seed, bi, ncmp):
         fa, fb = "a%d.txt" % k, "b%d.txt" % k
         e = {"k": k, "type": typ, "kind": kind, "ncompare": 1}
         if kind == "pair":
-            pr = make_pair(g, typ, n)
+            pr = make_pair(g, typ, n, mode="nonfinite" if fnf else None, nfkind=fnf)
             files[fa] = (t, [pr["a"]])
             files[fb] = (t, [pr["b"]])
             lines += ["@Interpolation None;", "@TestType %s;" % typ, prec_line(typ, pr["p1"], pr["p2"]), "@Test '%s' '%s' %s;" % (fa, fb, colref)]
             e.update(pr)
         elif kind == "self":
-            cls = g.choice(CLASSES)
+            cls = fcls or g.choice(CLASSES)
             col = rand_column(g, n, cls)
             scale = max(abs(x) for x in col)
             p1 = rand_prec(g, scale if typ == "Absolute" else 1.0)
@@ -360,18 +372,26 @@ def gen_area_case(g, k):
     while len(t) < n:
         t.append(t[-1] + 1.0)
     cls = g.choice(["positive", "positive", "negative", "negative", "mixed", "zero"])
+    forced = {0: ("negative", "offset", 100.0), 1: ("positive", "nan", None), 2: ("negative", "identical", None), 3: ("positive", "offset", 100.0),
+              4: ("negative", "refined", 100.0), 5: ("positive", "identical", None)}.get(k)
+    if forced:
+        cls = forced[0]
     if cls == "zero":
         a = [0.0] * n
     else:
         a = rand_column(g, n, cls)
     kind = g.choice(["identical", "identical", "offset", "offset", "offset", "refined", "nan"])
     p = rand_prec(g)
+    if forced:
+        kind = forced[1]
+        p = 10.0 ** g.uniform(-6, -1)
     scale = max(abs(x) for x in a) or 1.0
     tb, b = list(t), list(a)
     length = t[-1] - t[0]
     if kind in ("offset", "refined"):
         # same-sign difference: |a-b| is piecewise linear on a's grid, the trapezoidal rule is exact
-        tgt = (p if p > 0 else 1e-6) * g.choice([0.01, 0.1, 10.0, 100.0]) * scale      # target area / max|a| * max|a|
+        fac = forced[2] if forced else g.choice([0.01, 0.1, 10.0, 100.0])
+        tgt = (p if p > 0 else 1e-6) * fac * scale      # target area / max|a| * max|a|
         s = g.choice([-1, 1])
         w = [g.uniform(0.2, 1.0) for _ in range(n)]
         raw = sum((t[i + 1] - t[i]) * (w[i] + w[i + 1]) / 2 for i in range(n - 1))
@@ -506,6 +526,12 @@ def gen_mtest_case(seed, i, lib):
     eps = 10.0 ** g.uniform(-10, 0)
     a0, b0 = g.uniform(-5, 5), g.uniform(-2, 2)
     mode = g.choice(["inside", "inside", "outside", "nan-ref", "inf-ref", "inf-computed", "nan-computed"])
+    forced = {0: ("file", "Echo", "nan-ref"), 1: ("file", "Echo", "inf-ref"), 2: ("function", "Echo", "outside"), 3: ("file", "Echo", "outside"),
+              4: ("function", "Echo", "inf-computed"), 5: ("file", "Echo", "nan-computed"), 6: ("function", "EXX", "outside"),
+              7: ("function", "Echo", "inside"), 8: ("file", "Echo", "inside")}.get(i)
+    if forced:
+        kind, var, mode = forced
+        eps = 10.0 ** g.uniform(-6, -2)
     if var == "EXX":
         a0, b0 = 0.0, g.uniform(-1e-4, 1e-4)
         eps = 10.0 ** g.uniform(-11, -6)
